@@ -123,7 +123,6 @@ QueryMatches(ev) ==
     /\ ev.common = p.commonself
     /\ ev.union = p.union
     /\ ev.dist = p.dist
-    /\ IF ev.haspath THEN ev.path \in p.paths ELSE p.paths = {}      \* any shortest path is allowed
     /\ ev.sim_bad = <<>>
 
 TQuery == Ev("Query") /\ Step /\ phase = "connected" /\ QueryMatches(Rec[l]) /\ UNCHANGED coreVars
